@@ -93,4 +93,36 @@ def copyFromReaderLimited (mw : Mem) (iopW : Int) (length : Nat) (mr : Mem) (iop
     ⟨wrList mw iopW r.2, r.1, iopW + n, iopR + n, n⟩
   else ⟨mw, mr, iopW, iopR, 0⟩
 
+/-! ### The slice helpers of fundamental-public.h (what cgen emits for `s[i ..]`, `s[.. j]`, `s[i .. j]`) -/
+
+/-- A C slice: base pointer (`none` = NULL) and length. -/
+structure CSlice where
+  base : Option Nat
+  len : Nat
+  deriving Repr, Inhabited
+
+/-- Result: offset of the result pointer from the base (`none` = the result pointer is NULL), length, and
+whether pointer arithmetic was performed on a NULL pointer (undefined behaviour in C, also for `+ 0`). -/
+structure SubRes where
+  off : Option Nat
+  len : Nat
+  nullArith : Bool
+  deriving Repr, Inhabited, DecidableEq
+
+/-- `wuffs_base__slice_u8__subslice_i` as repaired (`s.ptr ? (s.ptr + i) : NULL`); out of bounds: the empty slice. -/
+def subsliceI (s : CSlice) (i : Nat) : SubRes :=
+  if i ≤ s.len then ⟨s.base.map (fun _ => i), s.len - i, false⟩ else ⟨none, 0, false⟩
+
+/-- `wuffs_base__slice_u8__subslice_j` (no pointer arithmetic). -/
+def subsliceJ (s : CSlice) (j : Nat) : SubRes :=
+  if j ≤ s.len then ⟨s.base.map (fun _ => 0), j, false⟩ else ⟨none, 0, false⟩
+
+/-- `wuffs_base__slice_u8__subslice_ij` as repaired. -/
+def subsliceIJ (s : CSlice) (i j : Nat) : SubRes :=
+  if i ≤ j ∧ j ≤ s.len then ⟨s.base.map (fun _ => i), j - i, false⟩ else ⟨none, 0, false⟩
+
+/-- The pinned `subslice_i` / `subslice_ij`: `s.ptr + i` unconditionally. -/
+def subsliceIPinned (s : CSlice) (i : Nat) : SubRes :=
+  if i ≤ s.len then ⟨s.base.map (fun _ => i), s.len - i, s.base.isNone⟩ else ⟨none, 0, false⟩
+
 end WuffsVerif.IOHelpers
